@@ -755,7 +755,7 @@ structure PutDone (k h₁ : Nat) (c₁ : PutCmd) (H : List (BState × Act)) (pre
   occ0 : occ b c₁.id = 0
   idlt : c₁.id < b.g.nextId
 
-theorem PutPoint.mono {H : List (BState × Act)} {n k id : Nat} (y : BState × Act) (h : PutPoint H n k id) :
+theorem putPoint_mono {H : List (BState × Act)} {n k id : Nat} (y : BState × Act) (h : PutPoint H n k id) :
     PutPoint (y :: H) n k id := by
   obtain ⟨x, v, h1, h2⟩ := h
   exact ⟨x, v, (Sub.cons _ _).at h1, h2⟩
@@ -771,7 +771,7 @@ theorem PutDone.lift {k h₁ : Nat} {c₁ : PutCmd} {H : List (BState × Act)} {
   refine ⟨⟨st, hst', ho⟩, ?_, ?_, hkey hp.key, ?_, ?_⟩
   · intro ha
     rw [hst'] at ha
-    exact (hp.born (by rw [hst, ha])).mono y
+    exact putPoint_mono y (hp.born (by rw [hst, ha]))
   · have := hp.lo; simp only [List.length_cons]; omega
   · have := hp.occ0; omega
   · have := hp.idlt; omega
@@ -870,7 +870,7 @@ theorem pde_other {i k h₁ : Nat} {c₁ : PutCmd} {H : List (BState × Act)} {d
     intro e hw
     rw [ho.w] at hw
     obtain ⟨lo, h1, h2, h3, h4⟩ := httl e hw
-    exact ⟨lo, by simp only [List.length_cons]; omega, present_step hs h1 hnw (env_no_clear he) h2, h3.mono _,
+    exact ⟨lo, by simp only [List.length_cons]; omega, present_step hs h1 hnw (env_no_clear he) h2, putPoint_mono _ h3,
       fun wk h => h4 wk (ho.kw _ wk h)⟩
   | pd pres lo hp hpres hoff hrest =>
     refine .pd pres lo (hp.other _ ho) ?_ (by rw [ho.w]; exact hoff) (by rw [hqx]; exact hrest.append hkx)
